@@ -46,7 +46,12 @@ def grid_delay(max_ticks: int = 128):
 def strategy_value(hostile: bool = True, max_ticks: int = 128):
     opts = [grid_delay(max_ticks)] * 6 + [st.sampled_from([0.0, 0.015625, 0.5, 1.0])]
     if hostile:
+        from decimal import Decimal
+        from fractions import Fraction
+
         opts += [st.sampled_from([NAN, INF, -INF, -1.0, -0.015625, 1e9, 1e300]), st.integers(0, 3)]
+        # other numeric types a strategy may compute with (exact on the 1/64 s grid)
+        opts += [st.sampled_from([Decimal("0.5"), Decimal("0.015625"), Decimal("2"), Fraction(1, 64), Fraction(3, 2), True])]
     return st.one_of(*opts)
 
 
@@ -82,11 +87,13 @@ def script_entry(draw, p):
     if kind in ("exc", "res", "copen", "rexh"):
         e["klass"] = draw(klass_st(p.get("p_retryable", 0.7)))
     if kind == "exc" and chance(draw, p.get("etypes", 0.25), "etype"):
-        e["etype"] = draw(st.sampled_from(["TimeoutError", "ConnectionError", "KeyError", "AssertionError", "ValueError", "OSError", "FalsyError", "FalsyError"]))
+        e["etype"] = draw(st.sampled_from(["TimeoutError", "ConnectionError", "KeyError", "AssertionError", "ValueError", "OSError", "FalsyError", "FalsyError", "Group:TRANSIENT", "Group:PERMANENT", "Group:UNKNOWN"]))
+    if kind == "exc" and chance(draw, p.get("reraise", 0.1), "reraise"):
+        e["reraise_prev"] = True
     if kind == "exc" and chance(draw, p.get("chains", 0.12), "chain"):
         e["chain"] = [draw(st.sampled_from(["context", "cause"])), draw(st.sampled_from(["CircuitOpenError", "CircuitOpenError", "AbortRetryError", "KeyError", "TimeoutError"]))]
     if kind in ("res", "ok") and chance(draw, p.get("odd_results", 0.2), "rval"):
-        e["rval"] = draw(st.sampled_from(["none", "falsy", "falsy", "awaitable"]))
+        e["rval"] = draw(st.sampled_from(["none", "falsy", "falsy", "awaitable", "exc_instance"]))
     if kind in ("exc", "res") and p.get("classifier_time") and chance(draw, p["classifier_time"], "cdur"):
         e["cdur"] = draw(st.sampled_from([1, 2, 4, 16, 64]))
     if kind in ("exc", "res"):
@@ -216,8 +223,8 @@ def placement(draw, p):
         "sleeper": draw(where),
         "before": draw(where),
         "handler": draw(st.sampled_from(["call", "policy", "both"])),
-        "sleeper_flavour": draw(st.sampled_from(["async", "sync", "awaitable", "awaitable_obj"])),
-        "before_flavour": draw(st.sampled_from(["async", "sync", "awaitable", "awaitable_obj"])),
+        "sleeper_flavour": draw(st.sampled_from(["async", "sync", "awaitable", "awaitable_obj", "gen_coroutine"])),
+        "before_flavour": draw(st.sampled_from(["async", "sync", "awaitable", "awaitable_obj", "gen_coroutine"])),
         "attempt_hooks": draw(st.sampled_from(["call", "policy", "none"])),
     }
     return d
